@@ -1398,26 +1398,33 @@ def transaction_table_keys(ctx: Ctx, rule: str, tables=("_app_waiting_answer", "
         if not purges:
             ctx.fail(cons + "#purge", nc.loc(), f"Node.{T} is never purged of the entries of a removed "
                      f"connection", rule=rule)
+        from ..atoms import Atomizer, must_facts
         for fn_, loop, kv in purges:
-            body = loop.body if isinstance(loop, ast.For) else []
-            txt = " ".join(ast.unparse(b) for b in body) if body else ""
-            tests = [t for b in body for t in ast.walk(b) if isinstance(t, (ast.If, ast.IfExp))]
-            ok = False
-            for t in tests:
-                te = t.test
-                s_ = A.resolve_local_chain(fn_.node, te).replace(" ", "").replace('"', "'")
-                if kind == "str" and s_.startswith(f"{kv}.startswith(f'{{") and ".ident}:')" in s_:
-                    ok = True
-                if kind == "tuple" and ((s_.startswith(f"{kv}[0]==") and s_.endswith(".ident"))
-                                        or (s_.endswith(f".ident=={kv}[0]"))):
-                    ok = True
+            gq = cfg_of(fn_)
+            atq = Atomizer(model, fn_.module, fn_.cls)
+            inside = {id(x) for x in ast.walk(loop)}
+            rem = [n for n in gq.nodes if n.kind == "stmt" and id(n.ast) in inside and (
+                any(isinstance(c.func, ast.Attribute) and c.func.attr == "pop"
+                    and A.dotted(c.func.value) == f"self.{T}" and c.args and A.dotted(c.args[0]) == kv
+                    for c in n.calls())
+                or any(isinstance(t, ast.Subscript) and A.dotted(t.value) == f"self.{T}"
+                       and A.dotted(t.slice) == kv for t in n.deletes()))]
+            ok = bool(rem)
+            seen_facts = []
+            for r_ in rem:
+                facts = must_facts(gq, atq, r_)
+                seen_facts = sorted(map(str, facts))[:4]
+                fit = [fx for fx in facts if selects_own_entries(fx)
+                       and ((kind == "str") == (".startswith(" in str(fx[0])))]
+                if not fit:
+                    ok = False
             if not ok:
                 ctx.fail(cons + "#purge", fn_.loc(loop), f"the purge of Node.{T} in {fn_.qualname} does not "
                          f"test the keys in a way that fits their type ({kind} of {list(fields)}): it "
                          f"raises (AttributeError / TypeError escapes remove_peer_connection before "
                          f"the peer record is reset) or never matches", rule=rule,
                          expected="key.startswith(f'{conn.ident}:') for string keys, "
-                                  "key[0] == conn.ident for tuple keys", observed=txt[:120])
+                                  "key[0] == conn.ident for tuple keys", observed=str(seen_facts)[:160])
 
 
 def _key_of(x):
